@@ -2135,8 +2135,12 @@ class Interp:
             counters = self._rank_counters(node, env, space)
             try:
                 self.ex_block(node.body, env)
-            except (_Break, _Continue):
-                raise EngineError("break/continue in a loop over rows")
+            except _Continue:
+                if counters:
+                    raise EngineError("continue in a loop over rows with rank counters")
+                # the generic iteration ends here; the other iterations are the other instances of the generic row
+            except _Break:
+                raise EngineError("break in a loop over rows")
             finally:
                 for st in list(self.rank_stmts):
                     if self.rank_stmts[st][0] is node:
